@@ -1224,3 +1224,8 @@ for _p in ("C06", "C07"):
     PROPS[_p]["verus_units"] = list(PROPS[_p].get("verus_units", [])) + ["value_ops"]
 PROPS["C07"]["claim"] = PROPS["C07"]["claim"] + " write_dec_ref (Verus) keeps a value exactly when change_ref reports its count still positive and otherwise releases its storage (all parts of a chained value); write_inc_ref raises the count by one."
 PROPS["C06"]["claim"] = PROPS["C06"]["claim"] + " The table operations a column calls dispatch to these functions in the right mode (Verus): insert = a fresh value on a free slot, replace = overwrite in place following the stored chain, claimed = a claimed slot written without following what it held, remove = the whole chain on a chained table and the one slot otherwise."
+
+# ---------------------------------------------------------------- U76 extension: metadata fan-out of a hash column, unbounded over its value tables
+UNIT_META["flush_all"]["functions"] = UNIT_META["flush_all"]["functions"] + ["column::HashColumn::refresh_metadata (fragment)", "column::HashColumn::complete_plan (fragment)"]
+PROPS["C14"]["verus_units"] = list(PROPS["C14"].get("verus_units", [])) + ["flush_all"]
+PROPS["C14"]["claim"] = PROPS["C14"]["claim"] + " Metadata fan-out, unbounded over the value tables of a hash column (Verus): refresh_metadata re-reads the header of every value table after replay, complete_plan lets every value table log its header once per commit."
